@@ -9,6 +9,7 @@ NAN = float("nan")
 NO_DATA = -99999.0
 OPS = ["co_count", "co_sum", "co_min", "co_max", "co_avg", "co_median"]
 OPCH = {"co_count": "c", "co_sum": "s", "co_min": "m", "co_max": "M", "co_avg": "a", "co_median": "d"}
+DEFAULT_AGGS = [["v", o] for o in OPS] + [["uid", "co_count"]]
 RES = [(1, 1), (0.5, 0.5), (2, 1), (1, 2), (1.5, 1), (0.5, 2), (3, 1), (1, 3), (2, 2), (0.25, 0.5), (1, 1.5)]
 
 
@@ -41,8 +42,13 @@ class P(Prop):
     rule = ("exhaustive: grids over [0,W]x[0,H] (W,H in 1..3) for every listed resolution, getCell of every half-integer lattice point in [-0.5,W+0.5]x[-0.5,H+0.5]; "
             "one-track collections (0,0),(2,2),p for every lattice p in [0,2]^2, every listed resolution; "
             "random: 1..3 tracks on a half-integer lattice (cell borders, outer border, corners), square and non-square resolutions, margins 0/0.125/0.25/0.5 at Rat "
-            "and 0.05/0.1/0.3 at Float, random float coordinates at Float; feature values with NaN; all six operators plus uid#co_count; "
-            "a small stream of collections whose extent is degenerate (all x or all y equal). non-trivial = at least 2 cells and at least 2 observations")
+            "and 0.05/0.1/0.3 at Float, random float coordinates at Float; two features v, w with NaN plus uid; "
+            "ONE summarize call per case with several (feature, operator) pairs in a generated order (all six operators on v shuffled, or 2..4 operators on v "
+            "in any order mixed with operators on w and uid; median first / in the middle / last), every produced grid is checked; 1 in 5 cases summarises the same "
+            "collection twice; exhaustive: every ordered pair and triple of distinct operators on one feature over a fixed collection; "
+            "direct calls of the cell operators in sequence on ONE list (every ordered pair on fixed lists, random sequences), checking the values and that the list "
+            "is left unchanged; a small stream of collections whose extent is degenerate (all x or all y equal). "
+            "non-trivial = at least 2 cells and at least 2 observations (sum), any (cell, op)")
 
     def setup(self):
         from tracklib.core.obs import Obs
@@ -56,13 +62,14 @@ class P(Prop):
         import tracklib.core.utils as U
         self.Obs, self.ENU, self.T, self.Track, self.TC = Obs, ENUCoords, ObsTime, Track, TrackCollection
         self.Bbox, self.Raster, self.summarize = Bbox, Raster, summarize
-        self.ops = [getattr(U, o) for o in OPS]
-        self.co_count = U.co_count
+        self.opf = {o: getattr(U, o) for o in OPS}
 
     # ---------------------------------------------------------------- generators
     def exhaustive_scopes(self, tier):
         return ["getCell of every half-integer lattice point of [-0.5,W+0.5]x[-0.5,H+0.5] on the grids over [0,W]x[0,H], W,H in 1..3, for %d resolutions" % len(RES),
-                "collections {(0,0),(2,2),p}, p over the 25 half-integer lattice points of [0,2]^2, %d resolutions, margin 0" % len(RES)]
+                "collections {(0,0),(2,2),p}, p over the 25 half-integer lattice points of [0,2]^2, %d resolutions, margin 0" % len(RES),
+                "one summarize call with every ordered pair (30) and every ordered triple (120) of distinct operators on the same feature, fixed collection with NaN-free, mixed and all-NaN cells",
+                "every ordered pair (36, including the same operator twice) of cell operators called in sequence on one list, for 6 fixed lists"]
 
     def cases(self, rng, tier):
         out = []
@@ -76,7 +83,23 @@ class P(Prop):
                 for j in range(5):
                     out.append({"kind": "sum-enum", "mode": "q", "tracks": [[[0, 0, 1.0], [2, 2, 2.0], [i / 2, j / 2, 4.0]]],
                                 "res": list(res), "margin": 0})
+        # several aggregates of one feature in one call, in every order
+        fixed = [[[0, 0, 3.0, 1.0], [0.5, 0.5, 1.0, "nan"], [0.25, 0.75, 2.0, 2.0], [1.5, 0.5, "nan", 4.0], [1.5, 0.25, 5.0, 4.0]],
+                 [[0.5, 1.5, "nan", 7.0], [1.5, 1.5, 4.0, 0.5], [2, 2, 6.0, "nan"], [1.25, 1.75, 4.0, 1.5], [0.75, 0.25, -1.0, 3.0]]]
+        for k in (2, 3):
+            for perm in itertools.permutations(OPS, k):
+                out.append({"kind": "sum-aggs-enum", "mode": "q", "tracks": fixed, "res": [1, 1], "margin": 0,
+                            "aggs": [["v", o] for o in perm] + [["uid", "co_count"]]})
+        lists = [[1.0, 2.0, 3.0], [2.0, 1.0], [5.0], ["nan", 1.0, 2.0], ["nan"], []]
+        for vals in lists:
+            for a in OPS:
+                for b in OPS:
+                    out.append({"kind": "op", "mode": "q", "vals": vals, "order": [a, b]})
         nrand = 2500 if tier == "quick" else 40000
+        for _ in range(nrand // 2):
+            n = rng.randrange(0, 8)
+            out.append({"kind": "op", "mode": "q", "vals": self.values(rng, n),
+                        "order": [rng.choice(OPS) for _ in range(rng.randrange(2, 7))]})
         for _ in range(nrand):
             out.append(self.lattice(rng, "q"))
         for _ in range(nrand // 2):
@@ -109,17 +132,35 @@ class P(Prop):
         for _ in range(ntr):
             n = rng.randrange(1, 9)
             tr = []
-            vs = self.values(rng, n)
+            vs, ws = self.values(rng, n), self.values(rng, n)
             for k in range(n):
                 x = rng.choice([0, W, rng.randrange(0, 2 * W + 1) / 2, rng.randrange(0, W + 1)])
                 y = rng.choice([0, H, rng.randrange(0, 2 * H + 1) / 2, rng.randrange(0, H + 1)])
-                tr.append([ox + x, oy + y, vs[k]])
+                tr.append([ox + x, oy + y, vs[k], ws[k]])
             tracks.append(tr)
         # make the extent non-degenerate: the two opposite corners are always present
         tracks[0][0][0], tracks[0][0][1] = ox, oy
-        tracks[-1].append([ox + W, oy + H, rng.choice([1.0, "nan", -3.5])])
+        tracks[-1].append([ox + W, oy + H, rng.choice([1.0, "nan", -3.5]), rng.choice([2.0, "nan"])])
         margin = rng.choice([0, 0, 0.125, 0.25, 0.5]) if mode == "q" else rng.choice([0.05, 0.1, 0.1, 0.3])
-        return {"kind": "sum-lattice-" + mode, "mode": mode, "tracks": tracks, "res": list(rng.choice(RES)), "margin": margin}
+        return {"kind": "sum-lattice-" + mode, "mode": mode, "tracks": tracks, "res": list(rng.choice(RES)), "margin": margin,
+                "aggs": self.rand_aggs(rng), "runs": 2 if rng.random() < 0.2 else 1}
+
+    def rand_aggs(self, rng):
+        """the (feature, operator) pairs of ONE summarize call, in call order"""
+        if rng.random() < 0.4:
+            aggs = [["v", o] for o in OPS]
+            rng.shuffle(aggs)
+            aggs.insert(rng.randrange(0, len(aggs) + 1), ["uid", "co_count"])
+            return aggs
+        aggs = [["v", o] for o in rng.sample(OPS, rng.randrange(2, 5))]
+        if rng.random() < 0.5 and ["v", "co_median"] not in aggs:
+            aggs[rng.randrange(0, len(aggs))] = ["v", "co_median"]
+        if rng.random() < 0.6:
+            aggs += [["w", o] for o in rng.sample(OPS, rng.randrange(1, 4))]
+        if rng.random() < 0.7:
+            aggs += [["uid", o] for o in rng.sample(OPS, rng.randrange(1, 3))]
+        rng.shuffle(aggs)
+        return aggs
 
     def floaty(self, rng):
         ntr = rng.randrange(1, 4)
@@ -129,11 +170,13 @@ class P(Prop):
         for _ in range(ntr):
             n = rng.randrange(1, 7)
             vs = self.values(rng, n)
-            tracks.append([[ox + rng.uniform(0, sx), oy + rng.uniform(0, sy), vs[k] if vs[k] == "nan" else vs[k] + rng.choice([0, rng.uniform(-1, 1)])] for k in range(n)])
-        tracks[0].append([ox + sx * 1.01, oy + sy * 1.01, 1.0])
-        tracks[-1].append([ox - sx * 0.01, oy - sy * 0.01, 2.0])
+            ws = self.values(rng, n)
+            tracks.append([[ox + rng.uniform(0, sx), oy + rng.uniform(0, sy), vs[k] if vs[k] == "nan" else vs[k] + rng.choice([0, rng.uniform(-1, 1)]), ws[k]] for k in range(n)])
+        tracks[0].append([ox + sx * 1.01, oy + sy * 1.01, 1.0, "nan"])
+        tracks[-1].append([ox - sx * 0.01, oy - sy * 0.01, 2.0, 3.0])
         res = [sx / rng.choice([1, 2, 3, 4.5, 7]), sy / rng.choice([1, 2, 3, 4.5, 7])]
-        return {"kind": "sum-float", "mode": "f", "tracks": tracks, "res": res, "margin": rng.choice([0, 0.05, 0.1, 0.3])}
+        return {"kind": "sum-float", "mode": "f", "tracks": tracks, "res": res, "margin": rng.choice([0, 0.05, 0.1, 0.3]),
+                "aggs": self.rand_aggs(rng), "runs": 2 if rng.random() < 0.2 else 1}
 
     def cellcase(self, rng):
         W, H = rng.randrange(1, 6), rng.randrange(1, 6)
@@ -151,6 +194,24 @@ class P(Prop):
     def all_obs(self, case):
         return [o for tr in case["tracks"] for o in tr]
 
+    def aggs(self, case):
+        return case.get("aggs") or DEFAULT_AGGS
+
+    def feats(self, case):
+        out = []
+        for f, _ in self.aggs(case):
+            if f not in out:
+                out.append(f)
+        return out
+
+    def fvals(self, case, feat):
+        """the values of feature `feat` per observation, in scatter order"""
+        out = []
+        for i, tr in enumerate(case["tracks"]):
+            for o in tr:
+                out.append(float(i + 1) if feat == "uid" else o[2] if feat == "v" else o[3])
+        return out
+
     def is_degenerate(self, case):
         if not case["kind"].startswith("sum"):
             return False
@@ -158,14 +219,25 @@ class P(Prop):
         return len({o[0] for o in obs}) == 1 or len({o[1] for o in obs}) == 1
 
     def describe(self, case):
+        if case["kind"] == "op":
+            return self.describe_op(case)
         t = {"kind": case["kind"], "res": "square" if case["res"][0] == case["res"][1] else "non-square", "margin": case["margin"]}
         if case["kind"].startswith("sum"):
             t["tracks"] = len(case["tracks"])
             t["has_nan"] = any(o[2] == "nan" for o in self.all_obs(case))
+            ag = self.aggs(case)
+            t["naggs"] = len(ag)
+            t["runs"] = case.get("runs", 1)
+            vops = [o for f, o in ag if f == "v"]
+            t["median_on_v"] = ("none" if "co_median" not in vops else "only" if len(vops) == 1 else
+                                "first" if vops[0] == "co_median" else "last" if vops[-1] == "co_median" else "middle")
         return t
 
+    def describe_op(self, case):
+        return {"kind": "op", "n": len(case["vals"]), "has_nan": "nan" in case["vals"], "first": case["order"][0]}
+
     def nontrivial(self, case):
-        if case["kind"] == "cell":
+        if case["kind"] in ("cell", "op"):
             return True
         return len(self.all_obs(case)) >= 2 and not self.is_degenerate(case)
 
@@ -179,25 +251,38 @@ class P(Prop):
                 c = r.getCell(self.ENU(p[0], p[1], 0))
                 cells.append(None if c is None else [int(c[0]), int(c[1])])
             return {"geo": [r.xmin, r.xmax, r.ymin, r.ymax, r.ncol, r.nrow], "cells": cells}
+        if case["kind"] == "op":
+            lst = [NAN if v == "nan" else v for v in case["vals"]]
+            res = [self.opf[o](lst) for o in case["order"]]      # the SAME list object is handed to every operator
+            return {"res": res, "after": list(lst)}
         tracks = []
         for uid, tr in enumerate(case["tracks"]):
             t = self.Track([], uid + 1)
             for k, o in enumerate(tr):
                 t.addObs(self.Obs(self.ENU(o[0], o[1], 0), self.T.readUnixTime(1000 + k)))
-            t.createAnalyticalFeature("v")
-            for k, o in enumerate(tr):
-                t.setObsAnalyticalFeature("v", k, NAN if o[2] == "nan" else o[2])
+            for idx, name in ((2, "v"), (3, "w")):
+                if name in self.feats(case):
+                    t.createAnalyticalFeature(name)
+                    for k, o in enumerate(tr):
+                        t.setObsAnalyticalFeature(name, k, NAN if o[idx] == "nan" else o[idx])
             tracks.append(t)
         col = self.TC(tracks)
-        r = self.summarize(col, ["v"] * len(OPS) + ["uid"], self.ops + [self.co_count], tuple(case["res"]), case["margin"])
-        cells = []
-        for t in tracks:
-            for k in range(t.size()):
-                c = r.getCell(t.getObs(k).position)
-                cells.append(None if c is None else [int(c[0]), int(c[1])])
-        grids = {o: [list(row) for row in r.getAFMap("v#" + o).grid] for o in OPS}
-        grids["uid"] = [list(row) for row in r.getAFMap("uid#co_count").grid]
-        return {"geo": [r.xmin, r.xmax, r.ymin, r.ymax, r.ncol, r.nrow], "cells": cells, "grids": grids}
+        ag = self.aggs(case)
+        out = None
+        for run in range(case.get("runs", 1)):
+            # ONE call with all (feature, operator) pairs, in the case's order
+            r = self.summarize(col, [f for f, _ in ag], [self.opf[o] for _, o in ag], tuple(case["res"]), case["margin"])
+            cells = []
+            for t in tracks:
+                for k in range(t.size()):
+                    c = r.getCell(t.getObs(k).position)
+                    cells.append(None if c is None else [int(c[0]), int(c[1])])
+            grids = {f + "#" + o: [list(row) for row in r.getAFMap(f + "#" + o).grid] for f, o in ag}
+            if out is None:
+                out = {"geo": [r.xmin, r.xmax, r.ymin, r.ymax, r.ncol, r.nrow], "cells": cells, "grids": grids}
+            else:
+                out["again"] = {"geo": [r.xmin, r.xmax, r.ymin, r.ymax, r.ncol, r.nrow], "cells": cells, "grids": grids}
+        return out
 
     # ---------------------------------------------------------------- model
     def enc(self, case):
@@ -217,13 +302,15 @@ class P(Prop):
             b, res, mg = case["box"], case["res"], case["margin"]
             head = "C19.cell %s %s %s %s %s %s %s %s" % (m, e(b[0]), e(b[1]), e(b[2]), e(b[3]), e(res[0]), e(res[1]), e(mg))
             return ["%s %s %s" % (head, e(p[0]), e(p[1])) for p in case["pts"]]
+        if case["kind"] == "op":
+            return ["C19.agg %s %s %s" % (m, tok_list(e(v) for v in case["vals"]), "".join(OPCH[o] for o in case["order"]))]
         obs = self.all_obs(case)
         xs, ys = tok_list(e(o[0]) for o in obs), tok_list(e(o[1]) for o in obs)
-        vs = tok_list(e(o[2]) for o in obs)
-        uids = tok_list(e(float(i + 1)) for i, tr in enumerate(case["tracks"]) for _ in tr)
         tail = "%s %s %s" % (e(case["res"][0]), e(case["res"][1]), e(case["margin"]))
-        return ["C19.sum %s %s %s %s %s %s" % (m, xs, ys, vs, tail, "".join(OPCH[o] for o in OPS)),
-                "C19.sum %s %s %s %s %s c" % (m, xs, ys, uids, tail)]
+        # the aggregates are pure functions of the cell contents: one model request per feature, its operators in call order
+        return ["C19.sum %s %s %s %s %s %s" % (m, xs, ys, tok_list(e(v) for v in self.fvals(case, f)), tail,
+                                                "".join(OPCH[o] for ff, o in self.aggs(case) if ff == f))
+                for f in self.feats(case)]
 
     def parse_cell(self, w):
         if w == "none":
@@ -245,18 +332,25 @@ class P(Prop):
                 geo = g
                 cells.append(self.parse_cell(w[6]))
             return {"geo": geo, "cells": cells}
+        if case["kind"] == "op":
+            return {"res": [d(w) for w in untok(replies[0])], "after": [NAN if v == "nan" else v for v in case["vals"]]}
         if replies[0] == "err:raised":
             return {"err": "raised"}
         w = replies[0].split(" ")
         geo = [d(w[0]), d(w[1]), d(w[2]), d(w[3]), int(w[4]), int(w[5])]
         cells = [self.parse_cell(c) for c in untok(w[6])]
-        gs = untok(w[7], "|")
         grids = {}
-        for o, g in zip(OPS, gs):
-            grids[o] = [[d(v) for v in untok(row)] for row in untok(g, ";")]
-        w2 = replies[1].split(" ")
-        grids["uid"] = [[d(v) for v in untok(row)] for row in untok(w2[7], ";")]
-        return {"geo": geo, "cells": cells, "grids": grids}
+        for f, r in zip(self.feats(case), replies):
+            wf = r.split(" ")
+            if wf[:7] != w[:7]:
+                raise ValueError("geometry / cells differ between the per-feature requests")
+            ops = [o for ff, o in self.aggs(case) if ff == f]
+            for o, g in zip(ops, untok(wf[7], "|")):
+                grids[f + "#" + o] = [[d(v) for v in untok(row)] for row in untok(g, ";")]
+        out = {"geo": geo, "cells": cells, "grids": grids}
+        if case.get("runs", 1) > 1:
+            out["again"] = {"geo": geo, "cells": cells, "grids": grids}
+        return out
 
     def compare(self, case, impl_out, model_out):
         if "err" in impl_out or "err" in model_out:
@@ -309,6 +403,29 @@ class P(Prop):
     def spec(self, case, out):
         if "err" in out:
             return "raised %s (%s)" % (out["err"], out.get("detail"))
+        if case["kind"] == "op":
+            want_list = [NAN if v == "nan" else v for v in case["vals"]]
+            for k, (o, got) in enumerate(zip(case["order"], out["res"])):
+                want = self.agg(o, case["vals"])
+                if want == NO_DATA and o not in ("co_count", "co_sum") and not any(v != "nan" for v in case["vals"]):
+                    if not isnan(got):
+                        return "call %d: %s(%s) = %r, NaN expected (no non-NaN value)" % (k, o, case["vals"], got)
+                elif isnan(got) or not close(got, want, 1e-9):
+                    return ("call %d of %s on the same list: %s(%s) = %r, expected %r"
+                            % (k, case["order"], o, case["vals"], got, want))
+            if not close(out["after"], want_list, 0.0, 0.0):
+                return "the operators %s changed their argument: %s -> %s" % (case["order"], case["vals"], out["after"])
+            return None
+        m = self.spec_sum(case, out, "")
+        if m is None and "again" in out:
+            m = self.spec_sum(case, out["again"], "second summarize of the same collection: ")
+        return m
+
+    def spec_sum(self, case, out, prefix):
+        m = self.spec_sum1(case, out)
+        return None if m is None else prefix + m
+
+    def spec_sum1(self, case, out):
         geo = out["geo"]
         xmin, xmax, ymin, ymax, ncol, nrow = geo
         if case["kind"] == "cell":
@@ -332,33 +449,40 @@ class P(Prop):
         for name, got, want, w in (("xmin", xmin, min(xs) - mg * wx, wx), ("ymin", ymin, min(ys) - mg * wy, wy)):
             if abs(got - want) > 1e-9 * max(1.0, abs(want), w):
                 return "grid origin %s = %r, expected %r" % (name, got, want)
-        members = {}
         for o, c in zip(obs, out["cells"]):
             m = self.footprint(case, geo, o[0], o[1], c)
             if m:
                 return "observation (%s, %s) assigned to %s: %s" % (o[0], o[1], c, m)
-            members.setdefault((c[1], c[0]), []).append(o[2])
         grids = out["grids"]
+        ag = self.aggs(case)
+        if sorted(grids) != sorted(f + "#" + o for f, o in ag):
+            return "maps %s for the requested aggregates %s" % (sorted(grids), ag)
         for name, g in grids.items():
             if len(g) != nrow or any(len(row) != ncol for row in g):
                 return "grid %s is not %d x %d" % (name, nrow, ncol)
-        tot = sum(sum(row) for row in grids["uid"])
-        if tot != len(obs):
-            return "the counts of uid#co_count sum to %s for %d observations" % (tot, len(obs))
-        nn = sum(1 for o in obs if o[2] != "nan")
-        tot = sum(sum(row) for row in grids["co_count"])
-        if tot != nn:
-            return "the counts of v#co_count sum to %s for %d non-NaN values" % (tot, nn)
-        for l in range(nrow):
-            for c in range(ncol):
-                vals = members.get((l, c), [])
-                if grids["uid"][l][c] != len(vals):
-                    return "uid#co_count[line %d][col %d] = %s, %d observations are located there" % (l, c, grids["uid"][l][c], len(vals))
-                for o in OPS:
-                    want = self.agg(o, vals)
-                    got = grids[o][l][c]
-                    if isnan(got) or not close(got, want, 1e-9):
-                        return "%s[line %d][col %d] = %r, the values located there %s give %r" % (o, l, c, got, vals, want)
+        # EVERY produced grid is checked against the values located in each cell, whatever else was computed in the same call
+        for f in self.feats(case):
+            members = {}
+            for v, c in zip(self.fvals(case, f), out["cells"]):
+                members.setdefault((c[1], c[0]), []).append(v)
+            for ff, o in ag:
+                if ff != f:
+                    continue
+                g = grids[f + "#" + o]
+                if o == "co_count":
+                    nn = sum(1 for v in self.fvals(case, f) if v != "nan")
+                    tot = sum(sum(row) for row in g)
+                    if tot != nn:
+                        return ("the counts of %s#co_count sum to %s for %d %s (aggregates of this call, in order: %s)"
+                                % (f, tot, nn, "observations" if f == "uid" else "non-NaN values", ag))
+                for l in range(nrow):
+                    for c in range(ncol):
+                        vals = members.get((l, c), [])
+                        want = self.agg(o, vals)
+                        got = g[l][c]
+                        if isnan(got) or not close(got, want, 1e-9):
+                            return ("%s#%s[line %d][col %d] = %r, the values located there %s give %r (aggregates of this call, in order: %s)"
+                                    % (f, o, l, c, got, vals, want, ag))
         return None
 
     def classify(self, case, impl_out, msg):
@@ -373,6 +497,19 @@ class P(Prop):
                 for i in range(len(case["pts"])):
                     yield dict(case, pts=[case["pts"][i]])
             return
+        if case["kind"] == "op":
+            if len(case["order"]) > 1:
+                for i in range(len(case["order"])):
+                    yield dict(case, order=case["order"][:i] + case["order"][i + 1:])
+            for i in range(len(case["vals"])):
+                yield dict(case, vals=case["vals"][:i] + case["vals"][i + 1:])
+            return
+        if case.get("runs", 1) > 1:
+            yield dict(case, runs=1)
+        ag = self.aggs(case)
+        if len(ag) > 1:
+            for i in range(len(ag)):
+                yield dict(case, aggs=ag[:i] + ag[i + 1:])
         tr = case["tracks"]
         if len(tr) > 1:
             for i in range(len(tr)):
